@@ -89,6 +89,13 @@ Definition can_depot_spawn (usage : list ((Z * Z) * (list vehicle_id * list vehi
   else true.
 
 (** ** private helpers of modifications.rs *)
+(* find_best_start_depot_for_spawning returns a Result since the repair "fix: a spawn without any free depot is
+   refused instead of panicking"; improve_depots_of_tour still expects a depot (panic), add_suitable_depots passes
+   the error on *)
+Definition find_best_start_depot_res (usage : list ((Z * Z) * (list vehicle_id * list vehicle_id))) (ty : Z) (first : node_id)
+  : res node_id :=
+  ok_or_err (find (fun d => can_depot_spawn usage d ty)
+                  (start_depots_sorted_by_distance_to nw (n_start_loc (nd nw first)))).
 Definition find_best_start_depot (usage : list ((Z * Z) * (list vehicle_id * list vehicle_id))) (ty : Z) (first : node_id)
   : res node_id :=
   unwrap_opt (find (fun d => can_depot_spawn usage d ty)
@@ -107,7 +114,7 @@ Definition add_suitable_depots (ty : Z) (nodes : list node_id) : res (list node_
         Ok (if is_depot (nd nw last_) then removelast n1 ++ [oe] else n1 ++ [oe])
       else
         do n1 <- (if is_depot (nd nw first) then Ok nodes
-                  else do d <- find_best_start_depot (s_usage s) ty first; Ok (d :: nodes));
+                  else do d <- find_best_start_depot_res (s_usage s) ty first; Ok (d :: nodes));
         if is_depot (nd nw last_) then Ok n1
         else do e <- find_best_end_depot last_; Ok (n1 ++ [e])
   end.
